@@ -150,9 +150,9 @@ LenU5(zz) ==
 \* one string of a packet that carries SEVERAL properties swept over a range wide enough for the property section
 \* (and the whole packet) to cross the 127/128 boundary of its length prefix, whatever the other properties add
 SweepN == IF Deep THEN 20..127 ELSE 40..127
-\* (the same around 16383 / 16384 for four shapes only - every such vector is 16 KiB and is decoded under several
+\* (the same around 16383 / 16384 for two shapes only - every such vector is 16 KiB and is decoded under several
 \*  deliveries: the whole sweep made the judge input of the thorough tier larger than a 4 GB TLC heap takes)
-SweepN16 == IF Deep THEN 16330..16383 ELSE {}
+SweepN16 == IF Deep THEN 16340..16383 ELSE {}
 SweepU5(zz) ==
   UNION {{[SubBase EXCEPT !.sid = 1, !.up = << <<L(n), S0>> >>],
           [SubBase EXCEPT !.sid = 300, !.up = << <<L(n), S0>> >>],
@@ -169,8 +169,6 @@ SweepU5(zz) ==
           [t |-> "SUBACK", id |-> 1, rs |-> <<L(n)>>, up |-> UP2, codes |-> <<0, 1>>],
           [t |-> "UNSUBACK", id |-> 1, rs |-> <<L(n)>>, up |-> UP1, codes |-> <<0>>]} : n \in SweepN}
   \cup UNION {{[SubBase EXCEPT !.sid = 1, !.up = << <<L(n), S0>> >>],
-               [Over(PubBase(1), DOMAIN PubAlt, PubAlt) EXCEPT !.ct = <<L(n)>>],
-               [Over(ConnBase, DOMAIN ConnAlt, ConnAlt) EXCEPT !.will = <<[WillFull EXCEPT !.ct = <<L(n)>>]>>],
                [t |-> "PUBACK", id |-> 1, rc |-> 16, rs |-> <<L(n)>>, up |-> UP2]} : n \in SweepN16}
 
 Univ5(zz) == AckU(0) \cup PubU(0) \cup PubRL(0) \cup SubU(0) \cup UnsubU(0) \cup SubAckU(0) \cup UnsubAckU(0) \cup DiscU(0) \cup AuthU(0) \cup ConnU(0) \cup CaU(0)
